@@ -101,7 +101,8 @@ def convert(model: nn.Module, input_example: Any, conversion_type: str,
     add_node_properties(mod)
     if conversion_type in ('autoimport', 'export'):
         # dictionary of shared feature maskers. Used only in 'autoimport' mode.
-        sm_dict = {} if conversion_type != 'autoimport' else build_shared_features_map(mod)
+        sm_dict = {} if conversion_type != 'autoimport' else build_shared_features_map(
+                mod, exclude_names, exclude_types)
         convert_layers(mod, conversion_type, sm_dict, exclude_names, exclude_types, fold_bn)
     if conversion_type in ('autoimport', 'import'):
         fuse_pit_modules(mod, fold_bn)
@@ -156,7 +157,10 @@ def convert_layers(mod: fx.GraphModule,
     return
 
 
-def build_shared_features_map(mod: fx.GraphModule) -> Dict[fx.Node, PITFeaturesMasker]:
+def build_shared_features_map(mod: fx.GraphModule,
+                              exclude_names: Iterable[str] = (),
+                              exclude_types: Iterable[Type[nn.Module]] = (),
+                              ) -> Dict[fx.Node, PITFeaturesMasker]:
     """Create a map from fx.Node instances to instances of PITFeaturesMasker to be used by PIT
     to optimize the number of features of that node. Handles the sharing of masks among
     multiple nodes.
@@ -193,10 +197,43 @@ def build_shared_features_map(mod: fx.GraphModule) -> Dict[fx.Node, PITFeaturesM
     for n in nodes_to_remove:
         sharing_graph.remove_node(n)
 
+    # Some tensors must keep all their features, because PIT cannot mask them consistently:
+    # - the input and the output of the layers excluded from the NAS, which keep their static shape
+    # - a features concatenation that shares its features with a convolutional/linear layer (e.g.
+    #   it is summed with the output of a layer, or it feeds a depthwise convolution), since a
+    #   single masker cannot be the concatenation of other maskers. In this case also the
+    #   concatenated tensors are fixed.
+    fixed_nodes = set()
+    layers = (nn.Conv1d, nn.Conv2d, nn.Linear)
+    for n in mod.graph.nodes:
+        if is_layer(n, mod, layers) and exclude(n, mod, exclude_names, exclude_types):
+            fixed_nodes.update([n] + n.all_input_nodes)
+    components = list(nx.weakly_connected_components(sharing_graph))
+    updated = True
+    while updated:
+        updated = False
+        for c in components:
+            concat_nodes = [n for n in c if n.meta['features_concatenate']]
+            if any(n in fixed_nodes for n in c) or (
+                    concat_nodes and any(is_inherited_layer(n, mod, layers) for n in c)):
+                for n in concat_nodes:
+                    new_nodes = set([n] + n.all_input_nodes) - fixed_nodes
+                    updated = updated or len(new_nodes) > 0
+                    fixed_nodes.update(new_nodes)
+
     # each weakly connected component of the sharing graph must share the same features masker
     sm_dict = {}
-    for c in nx.weakly_connected_components(sharing_graph):
+    for c in components:
         sm = None
+        if any(n in fixed_nodes for n in c):
+            for n in c:
+                if n.meta['features_defining'] or n.meta['untouchable'] or \
+                        n.meta['features_concatenate']:
+                    sm = PITFrozenFeaturesMasker(n.meta['tensor_meta'].shape[1])
+                    break
+            for n in c:
+                sm_dict[n] = sm
+            continue
         for n in c:
             # identify a node which can give us the number of features with 100% certainty
             # such as a convolution. Nodes such as flatten/squeeze/view/etc make this necessary
